@@ -38,7 +38,10 @@ class Stats:
         if nontrivial: self.nontrivial.add(case_hash)
         for l in labels: self.labels[l] += 1
     def sample(self, obj, limit=4):
-        if len(self.samples) < limit: self.samples.append(obj)
+        # Hypothesis starts with minimal examples: take samples spread over the run, not the first ones
+        self._nsample = getattr(self, '_nsample', 0) + 1
+        if self._nsample in (1, 7, 23, 61, 127, 251, 503, 1009) and len(self.samples) < max(limit, 4):
+            self.samples.append(obj)
     def pack(self):
         return dict(evaluations=self.evaluations, nontrivial=list(self.nontrivial), labels=dict(self.labels),
                     samples=self.samples, failures=self.failures, excluded_known=dict(self.excluded_known),
@@ -150,6 +153,11 @@ def write_evidence(mod, tier, seed, merged, wall, violations, extra_cov=None):
     }
     cov.update(merged.get('extra', {}))
     if extra_cov: cov.update(extra_cov)
+    # keys with a fixed type in EVIDENCE.schema.json must keep that type; anything else from a module is renamed rather than dropped
+    for key, typ in (('exhaustive', bool), ('states', int), ('transitions', int), ('obligations', int), ('discharged', int), ('programs', int),
+                     ('explanation', str), ('checker_cmd', str), ('rule', str)):
+        if key in cov and not isinstance(cov[key], typ): cov[key + '_detail'] = cov.pop(key)
+    if isinstance(cov.get('distinct_nontrivial'), bool) or not isinstance(cov.get('distinct_nontrivial'), int): cov['distinct_nontrivial'] = int(len(merged['nontrivial']))
     ev = {'property_id': mod.ID, 'tier': tier, 'seed': seed, 'level': getattr(mod, 'LEVEL', 'exploration'),
           'coverage': cov, 'assumptions': getattr(mod, 'ASSUMPTIONS', []), 'wall_s': round(wall, 2), 'violations': violations}
     evdir = os.environ.get('VERIF_EVIDENCE_DIR') or os.path.join(VERIF, 'evidence')
@@ -244,7 +252,7 @@ def run_check(pid, tier, replay_path=None):
         merged['evaluations'] += payload['evaluations']
         merged['nontrivial'].update(payload['nontrivial'])
         merged['labels'].update(payload['labels'])
-        if len(merged['samples']) < 8: merged['samples'].extend(payload['samples'][:2])
+        if len(merged['samples']) < 10: merged['samples'].extend(payload['samples'][-2:])
         merged['failures'].extend(payload['failures'])
         merged['excluded_known'].update(payload['excluded_known'])
         merged['inconclusive'] += payload['inconclusive']
